@@ -16,7 +16,8 @@ demo=$(ls $M/*_test.go 2>/dev/null | head -1)
 pkgdir=.
 if [ -n "$demo" ] && grep -q "^package internal" "$demo"; then pkgdir=internal; fi
 [ -n "$demo" ] && cp "$demo" $pkgdir/
-tname=$(grep -o "func Test[A-Za-z0-9_]*" "$demo" | head -1 | sed 's/func //')
+tname=$(grep -o "^func Test[A-Za-z0-9_]*" "$demo" | sed 's/func //' | paste -sd'|')   # every test of the demonstration file
+tname="($tname)"
 if [ "${FAST:-0}" = 1 ]; then
   git apply $M/patch.diff || { echo "PATCH DOES NOT APPLY"; exit 3; }
   go build ./... || exit 4
